@@ -604,4 +604,46 @@ theorem runOps_clean29 (gz : Gz) (rq : Req) (hrq : reqOK rq = true) (hm : (rq.me
 theorem TI_init (gz : Gz) (rq : Req) (ae : Option Str) : TI gz (init rq ae) :=
   ⟨rfl, fun p hp => (by cases hp), fun _ => rfl, fun _ => rfl⟩
 
+/-- **clean runs, in terms of the program text**: the strict client reads exactly one response, nothing left
+    over, with the status in force at the first flush/finish; its body is what the transform emitted
+    (`outputs gz hist`), the transform was fed exactly the program's writes (`bodyOf prog`), through
+    flushes followed by exactly one close — or, when the transform does not compress, the body *is* the writes. -/
+theorem run_clean29 (gz : Gz) (rq : Req) (ae : Option Str) (hrq : reqOK rq = true) (hm : rq.method ≠ Method.head)
+    (hinm : rq.inmMatch = false) (prog : List Op) (hops : ∀ op ∈ prog, opClean op = true) :
+    ∃ hs d body, clientParse (rq.method == .head) (wire (run gz rq ae prog).base.conn) (run gz rq ae prog).base.conn.closed
+        = .ok (⟨headStatus 200 prog, reason (headStatus 200 prog), hs, body, d⟩, []) ∧
+      ((run gz rq ae prog).t.gzipping = true →
+        Spec.WellClosed (run gz rq ae prog).t.hist ∧ body = (Spec.outputs gz (run gz rq ae prog).t.hist).flatten ∧
+        ((run gz rq ae prog).t.hist.map (·.1)).flatten = bodyOf prog) ∧
+      ((run gz rq ae prog).t.gzipping = false → body = bodyOf prog) := by
+  have hm' : (rq.method == Method.head) = false := by
+    cases h : rq.method with
+    | head => exact absurd h hm
+    | get => rfl
+    | post => rfl
+  obtain ⟨_, f2, f3, hs, _, f5⟩ := runOps_clean29 gz rq hrq hm' hinm prog (init rq ae) 200 (CI_init rq hrq)
+    (TI_init gz rq ae) hops
+  have ht : tgt (init rq ae).base 200 prog = headStatus 200 prog := by simp [tgt, init, C02.init]
+  have hb : fed (init rq ae) ++ (init rq ae).base.buf.flatten ++ bodyOf prog = bodyOf prog := by
+    simp [fed, fedOf, init, C02.init]
+  rw [ht] at f5
+  rw [hb] at f2
+  have hnb : nbOf rq (headStatus 200 prog) = false :=
+    nbOf_false rq _ hm' (headStatus_nb prog 200 (by decide) hops)
+  refine ⟨stripHs hs, delimOf rq (run gz rq ae prog).base.conn (headStatus 200 prog) hs,
+    (run gz rq ae prog).base.conn.sent.flatten, ?_, ?_, ?_⟩
+  · have hrun : run gz rq ae prog = runOps gz rq (init rq ae) prog := rfl
+    rw [hrun, f5]
+    simp only [expectedResp, hnb, Bool.false_eq_true, if_false]
+  · intro hg
+    obtain ⟨a1, a2⟩ := f3 hg
+    refine ⟨a1, a2, ?_⟩
+    have : fed (runOps gz rq (init rq ae) prog) = ((run gz rq ae prog).t.hist.map (·.1)).flatten := by
+      unfold fed fedOf; rw [show (runOps gz rq (init rq ae) prog).t.gzipping = true from hg]; rfl
+    rw [← this]; exact f2
+  · intro hg
+    have : fed (runOps gz rq (init rq ae) prog) = (run gz rq ae prog).base.conn.sent.flatten := by
+      unfold fed fedOf; rw [show (runOps gz rq (init rq ae) prog).t.gzipping = false from hg]; rfl
+    rw [← this]; exact f2
+
 end TornadoModel.C29
